@@ -53,9 +53,9 @@ ASSUMPTIONS = [
     'trusted: ref/gridmodel.py',
 ]
 BOUNDS = {
-    'quick': {'reorder': 'all 12 base grids', 'rename': 'all base grids', 'seq_depth': 2, 'minc_parts': '2..4 (129 vectors)',
+    'quick': {'reorder': 'all 12 base grids', 'rename': 'all base grids', 'seq_depth': 3, 'minc_parts': '2..5 (255 vectors)',
               'minc_selections': 'all, 1 single, 1 pair', 'embed': 'all base grids'},
-    'thorough': {'reorder': 'all 12 base grids', 'rename': 'all base grids', 'seq_depth': 3, 'minc_parts': '2..6 (381 vectors)',
+    'thorough': {'reorder': 'all 12 base grids', 'rename': 'all base grids', 'seq_depth': 4, 'minc_parts': '2..6 (381 vectors)',
                  'minc_selections': 'all, each single, each pair (11)', 'embed': 'all base grids'},
 }
 TECHNIQUE = ('bounded exhaustive enumeration of permutations, reversal subsets, rename maps, MINC fraction vectors and embed '
@@ -226,9 +226,10 @@ def eval_reorder(grid, block_names, connection_names, geo=None, geoname=None):
     m = model_of(grid)
     cls = ('geo:' + geoname) if geo is not None else reorder_class(m, block_names, connection_names)
     try:
-        do_reorder(grid, block_names, connection_names, geo)
+        with core.timelimit(60):
+            do_reorder(grid, block_names, connection_names, geo)
     except core.CaseTimeout:
-        raise
+        return [('C09|reorder|timeout|%s' % cls, 'reorder did not return within 60 s')], None, grid
     except Exception as e:
         return [('C09|reorder|raises:%s|%s' % (type(e).__name__, cls), 'reorder raised %r' % (e,))], None, grid
     v, g = judge('reorder', cls, m, grid)
@@ -240,7 +241,7 @@ def eval_rename(grid, pairs, via_t2data=False):
     cls = c08.map_class(pairs, m.blocks)
     site = 't2data.rename_blocks' if via_t2data else 'rename_blocks'
     try:
-        with quiet():
+        with quiet(), core.timelimit(60):
             if via_t2data:
                 import t2data
                 dat = t2data.t2data()
@@ -249,7 +250,7 @@ def eval_rename(grid, pairs, via_t2data=False):
             else:
                 grid.rename_blocks(dict((a, b) for a, b in pairs))
     except core.CaseTimeout:
-        raise
+        return [('C09|%s|timeout|%s' % (site, cls), 'rename_blocks(%r) did not return within 60 s' % (pairs,))], None, grid
     except Exception as e:
         return [('C09|%s|raises:%s|%s' % (site, type(e).__name__, cls), 'rename_blocks(%r) raised %r' % (pairs, e))], None, grid
     m.rename_blocks(dict((a, b) for a, b in pairs))
@@ -262,13 +263,13 @@ def eval_fileroundtrip(grid):
     m = model_of(grid)
     fn = os.path.join(core.scratch(), 'c09.dat')
     try:
-        with quiet():
+        with quiet(), core.timelimit(60):
             dat = t2data.t2data()
             dat.grid = grid
             dat.write(fn)
             g2 = t2data.t2data(fn).grid
     except core.CaseTimeout:
-        raise
+        return [('C09|write+read|timeout|any', 'data file round trip did not return within 60 s')], None, grid
     except Exception as e:
         return [('C09|write+read|raises:%s|any' % type(e).__name__, 'data file round trip raised %r' % (e,))], None, grid
     v, g = judge('write+read', 'any', m, g2, filetol=True)
@@ -312,6 +313,8 @@ def reorder_cases(model):
 def run_reorder(base, tier, rec):
     gname, atm = base
     g0 = base_grid(gname, atm)
+    if gname == 'R212' and atm == 2:
+        run_reorder_minc(rec)
     m0 = model_of(g0)
     n = 0
     for bn, cnn in reorder_cases(m0):
@@ -342,6 +345,27 @@ def run_reorder(base, tier, rec):
     rec.sample({'part': 'reorder', 'base': [gname, atm], 'blocks': len(m0.blocks), 'connections': len(m0.conns), 'cases': n})
 
 
+def run_reorder_minc(rec):
+    """Reorder on a grid that also holds MINC connections (no gravity cosine): identity, every single
+    reversal, all reversed, reversed order."""
+    g0 = minc_grid('plain')
+    with quiet():
+        g0.minc([0.2, 0.8])
+    if gated(g0):
+        return
+    m0 = model_of(g0)
+    cn = [list(c) for c in m0.conns]
+    cases = [cn, [c[::-1] for c in cn], [c[::-1] for c in cn][::-1]] + \
+            [[c[::-1] if k == i else c for k, c in enumerate(cn)] for i in range(len(cn))]
+    for cnn in cases:
+        g = copy.deepcopy(g0)
+        viol, gate, g = eval_reorder(g, None, cnn)
+        rec.case(('reorder-minc', cnn), nontrivial=cnn != cn, outcome='gated' if gate else ('violation' if viol else 'ok'))
+        for sig, what in viol:
+            rec.violation(sig.replace('|reorder|', '|reorder(after minc)|'), what, {'part': 'reorder-minc', 'connection_names': cnn})
+    rec.count('reorder_cases', len(cases))
+
+
 # ------------------------------------------------------------------------------------------------
 # part: rename
 # ------------------------------------------------------------------------------------------------
@@ -362,8 +386,6 @@ def run_rename(base, tier, rec):
     n = 0
     for mp in rename_cases(m0):
         for via in (False, True):
-            if via and len(mp) > 3 and tier == 'quick':
-                continue
             g = copy.deepcopy(g0)
             viol, gate, g = eval_rename(g, mp, via)
             if gate:
@@ -410,6 +432,8 @@ def seq_ops(state, depth):
     ops.append(['rename', [[bl[0], bl[1]], [bl[1], bl[0]]]])
     ops.append(['rename', [[bl[i], (bl + spare)[i + 1]] for i in range(len(bl))]])
     ops.append(['t2data_rename', [[bl[-1], spare[0]]]])
+    if len(cn) > 1:
+        ops.append(['reorder', None, [cn[1], cn[0]] + cn[2:-1] + ([cn[-1][::-1]] if len(cn) - 1 in rev_ok and len(cn) > 2 else cn[-1:] if len(cn) > 2 else [])])
     ops.append(['write+read'])
     return ops
 
@@ -444,7 +468,7 @@ def seq_canon(state):
 def run_seq(base, tier, rec):
     gname, atm = base
     st = SeqState(base, base_grid(gname, atm))
-    depth = 2 if tier == 'quick' else 3
+    depth = 3 if tier == 'quick' else 4
 
     def step(s, op):
         v = seq_step(s, op)
@@ -472,7 +496,7 @@ def compositions(total, parts):
 
 def fraction_vectors(tier):
     out = []
-    for k in range(2, 5 if tier == 'quick' else 7):
+    for k in range(2, 6 if tier == 'quick' else 7):
         out += [[x / 10. for x in c] for c in compositions(10, k)]
     return out
 
@@ -497,10 +521,11 @@ def eval_minc(g0, fr, planes, spacing, sel, fcd=None):
     if fcd is not None:
         kw['fracture_connection_distance'] = fcd
     try:
-        with quiet():
+        with quiet(), core.timelimit(10):
             g.minc(list(fr), spacing=spacing, num_fracture_planes=planes, blocks=None if sel is None else list(sel), **kw)
     except core.CaseTimeout:
-        raise
+        return [('C09|minc|timeout|%s' % cls, 'minc(%r, spacing=%r, planes=%d, blocks=%r) did not return within 10 s'
+                 % (fr, spacing, planes, sel))]
     except Exception as e:
         return [('C09|minc|raises:%s|%s' % (type(e).__name__, cls), 'minc(%r, spacing=%r, planes=%d, blocks=%r) raised %r'
                  % (fr, spacing, planes, sel, e))]
@@ -626,10 +651,10 @@ def eval_embed(g0, hostname, scale):
     cls = 'fits' if fits else 'host-too-small'
     con = t2grids.t2connection([g.block[hostname], sub.block['  p 1']], 2, [0.5, 0.25], 7., 0.)
     try:
-        with quiet():
+        with quiet(), core.timelimit(60):
             res = g.embed(sub, con)
     except core.CaseTimeout:
-        raise
+        return [('C09|embed|timeout|%s' % cls, 'embed into %r did not return within 60 s' % hostname)]
     except Exception as e:
         return [('C09|embed|raises:%s|%s' % (type(e).__name__, cls), 'embed into %r raised %r' % (hostname, e))]
 
@@ -713,6 +738,11 @@ def replay(case):
     if part == 'reorder':
         gname, atm = case['base']
         return eval_reorder(base_grid(gname, atm), case['block_names'], case['connection_names'])[0]
+    if part == 'reorder-minc':
+        g = minc_grid('plain')
+        with quiet():
+            g.minc([0.2, 0.8])
+        return [(sg.replace('|reorder|', '|reorder(after minc)|'), w) for sg, w in eval_reorder(g, None, case['connection_names'])[0]]
     if part == 'reorder-geo':
         gname, atm = case['base']
         g = base_grid(gname, atm)
